@@ -329,7 +329,7 @@ theorem tocoo_fromCoo_good (x : COO Int) (c : Option (List Nat)) (g : GCXS Int) 
               · rw [hlen]; exact hall
 
 /-- what `_from_coo` rejects is exactly what `gcxsAxesOk` rejects, always with `ValueError` -/
-theorem fromCoo_error (x : COO Int) (c : Option (List Nat)) (e : Err) (h : fromCoo x c = .error e) :
+theorem fromCoo_rejects (x : COO Int) (c : Option (List Nat)) (e : Err) (h : fromCoo x c = .error e) :
     e = .value ∧ gcxsAxesOk x.shape.length c = false := by
   unfold fromCoo at h
   split at h
@@ -370,7 +370,7 @@ theorem viaGcxs_step (x : COO Int) (d : Dense) (c : Option (List Nat)) (hg : Goo
   rw [← hr.shape]
   cases hfc : GCXS.fromCoo x c with
   | error e =>
-    obtain ⟨h1, h2⟩ := GCXS.fromCoo_error x c e hfc
+    obtain ⟨h1, h2⟩ := GCXS.fromCoo_rejects x c e hfc
     simp only []
     rw [h2, h1]
     exact Sim.err _
